@@ -573,44 +573,87 @@ func c05Payload(c *Ctx) {
 		return
 	}
 	cl := pf.AnonFuncs[0]
-	got := map[string]string{}
+	// D: the very slice handed to Payload (the closure's captured variable), never a re-slice or a copy of part of it
+	isData := func(v ssa.Value) bool { return c15Root(v) == ssa.Value(pf.Params[0]) }
+	isHexOfData := func(v ssa.Value, depth int) bool { return false }
+	isHexOfData = func(v ssa.Value, depth int) bool {
+		call, ok := v.(*ssa.Call)
+		if !ok {
+			return false
+		}
+		f := call.Call.StaticCallee()
+		switch {
+		case FuncIs(f, "encoding/hex", "EncodeToString"):
+			return isData(call.Call.Args[0])
+		case FuncIs(f, "fmt", "Sprintf"):
+			if fs, _ := ConstString(call.Call.Args[0]); fs == "%x" {
+				va := variadicArgs(call.Call.Args[1])
+				return len(va) == 1 && isData(Unwrap(va[0]))
+			}
+		case f != nil && InRepo(f) && f.Blocks != nil && depth == 0 && len(call.Call.Args) == 1 && isData(call.Call.Args[0]):
+			// a local spelling of EncodeToString: dst := make([]byte, hex.EncodedLen(len(p))); hex.Encode(dst, p); return string(dst)
+			par := f.Params[0]
+			var enc *ssa.Call
+			for _, c2 := range Calls(f) {
+				if FuncIs(c2.Common().StaticCallee(), "encoding/hex", "Encode") {
+					enc, _ = c2.(*ssa.Call)
+				}
+			}
+			if enc == nil || enc.Call.Args[1] != ssa.Value(par) {
+				return false
+			}
+			ms, ok := enc.Call.Args[0].(*ssa.MakeSlice)
+			if !ok {
+				return false
+			}
+			el, ok := ms.Len.(*ssa.Call)
+			if !ok || !FuncIs(el.Call.StaticCallee(), "encoding/hex", "EncodedLen") {
+				return false
+			}
+			if lx, isLen := isLenOf(el.Call.Args[0]); !isLen || lx != ssa.Value(par) {
+				return false
+			}
+			for _, r := range Returns(f) {
+				cv, ok := RetVals(r)[0].(*ssa.Convert)
+				if !ok || cv.X != ssa.Value(ms) {
+					return false
+				}
+			}
+			return true
+		}
+		return false
+	}
+	seen := map[string]bool{}
 	for _, call := range Calls(cl) {
 		f := call.Common().StaticCallee()
 		if f == nil || f.Name() != "Store" {
 			continue
 		}
 		k, _ := ConstString(call.Common().Args[1])
-		got[k] = Render(Unwrap(call.Common().Args[2]))
+		v := Unwrap(call.Common().Args[2])
+		okV, want := false, ""
+		switch k {
+		case "payload":
+			cv, isCv := v.(*ssa.Convert)
+			okV, want = isCv && isData(cv.X), "string(data)"
+		case "payload-hex":
+			okV, want = isHexOfData(v, 0), "hex.EncodeToString(data)"
+		case "payload-length":
+			lx, isLen := isLenOf(v)
+			okV, want = isLen && isData(lx), "len(data)"
+		default:
+			c.Observe("payload-triple", "extra key "+k, p.InstrPos(call), RenderN(v, 3))
+			continue
+		}
+		seen[k] = true
 		if call.Block() != cl.Blocks[0] {
-			got[k] += " (conditional)"
+			okV = false
 		}
+		c.Check(okV, "payload-triple", k, p.InstrPos(call), "= "+want, "event key "+k+" is `"+RenderN(v, 4)+"`, expected "+want+" of the very slice received, stored unconditionally (no re-slicing/arithmetic)")
 	}
-	data := "*fv:data"
-	want := map[string][]string{
-		"payload":        {"string(" + data + ")"},
-		"payload-hex":    {"hex.EncodeToString(" + data + ")", `fmt.Sprintf("%x", [` + data + `])`},
-		"payload-length": {"len(" + data + ")"},
-	}
-	for k, alts := range want {
-		ok := false
-		for _, a := range alts {
-			if got[k] == a {
-				ok = true
-			}
-		}
-		c.Check(ok, "payload-triple", k, p.Pos(cl.Pos()), "= "+got[k], "event key "+k+" is `"+got[k]+"`, expected "+alts[0]+" of the same received slice (no re-slicing/arithmetic)")
-	}
-	for k := range got {
-		if _, ok := want[k]; !ok {
-			c.Observe("payload-triple", "extra key "+k, p.Pos(cl.Pos()), got[k])
-		}
-	}
-	// the captured slice is Payload's parameter
-	for _, mc := range MakeClosures(pf) {
-		for fv, b := range ClosureBindings(mc) {
-			if fv.Name() == "data" {
-				c.Check(Deref(b) == ssa.Value(pf.Params[0]) || isAllocOfParam(b, pf.Params[0]), "payload-triple", "captured slice", p.InstrPos(mc), "closure captures Payload's argument", "the closure does not capture the slice passed to Payload")
-			}
+	for _, k := range []string{"payload", "payload-hex", "payload-length"} {
+		if !seen[k] {
+			c.Violate("payload-triple", k, p.Pos(cl.Pos()), "event key "+k+" is no longer stored by event.Payload")
 		}
 	}
 }
